@@ -33,8 +33,16 @@ ASSUMPTIONS = [
     "FIFO ready queue) – the fake writer of the harness implements exactly this rule",
     "application hooks return normally, do not call back into the connection, and should_replay's answer depends "
     "only on the journal row it is given",
-    "tasks: application tasks awaiting send_msg(m) for NEW messages (not SequenceReset, no PossDupFlag=Y), one "
-    "iteration of heartbeat_timer_task, the reader task processing ONE decoded frame; no task is cancelled",
+    "tasks: application tasks awaiting send_msg(m) for NEW messages (not SequenceReset, no PossDupFlag=Y) or for "
+    "messages of any kind whose text is outside latin-1 (refused); one iteration of heartbeat_timer_task, the reader "
+    "task processing ONE decoded frame; no task is cancelled.  Encodable application-sent PossDupFlag=Y / "
+    "SequenceReset messages (the application reuses a number on purpose) are compared with the model but are outside "
+    "the theorem and the oracle",
+    "MULTIPLICITY is covered by correspondence and oracle only: the model has ONE session and its journal; the harness "
+    "runs the connection as the first or as the third session of a Journaler shared with an inert session (rows under "
+    "the same numbers) and with a second real connection that has tasks of its own – all invisible to the model, so "
+    "every step of the neighbour must leave the compared state unchanged, and the oracle requires the other sessions "
+    "untouched and judges the neighbour by the same sentences",
     "messages carry plain tags only (no repeating groups), values contain no SOH, numeric header fields are ASCII, "
     "sequence numbers fit SQLite's 64-bit INTEGER; the journal behaves as the abstract store (C13)",
 ]
@@ -144,6 +152,64 @@ class CLog:
         self.m.eff.append(("C", kind))
 
 
+class NWriter:
+    """transport of the neighbour connection: records its frames, drain() suspends once"""
+
+    def __init__(self, machine):
+        self.m = machine
+
+    def write(self, b):
+        self.m.nb_wire.append(bytes(b))
+
+    async def drain(self):
+        await Suspend("drain")
+
+    def close(self):
+        pass
+
+    async def wait_closed(self):
+        await Suspend("waitClosed")
+
+    def get_extra_info(self, *_):
+        return None
+
+
+class NLog:
+    def __init__(self, machine):
+        self.m = machine
+
+    def debug(self, *a, **k):
+        pass
+
+    info = warning = error = debug
+
+    def exception(self, msg, *a, **k):
+        self.m.nb_exc.append(("C", S.exc_kind(sys.exc_info()[0])))
+
+
+def _nconn_class():
+    import asyncfix.connection as cm
+
+    class NConn(cm.AsyncFIXConnection):
+        """the neighbour: a second real connection on the SAME Journaler (hooks do nothing and never suspend)"""
+
+        async def on_message(self, msg):
+            pass
+
+        async def on_connect(self):
+            pass
+
+    return NConn
+
+
+def NConn(*a, **k):
+    return _nconn_class()(*a, **k)
+
+
+NB_STATE = S.with_journal(S.AbsConn(state=17, role=1, was_active=True, sender="S2", target="T2", next_in=5, next_out=7,
+                                    sock=True, last_time=S.T0 - 1000), "app")
+
+
 class Machine(S.Impl):
     """ONE real AsyncFIXConnection whose hooks / transport suspend; tasks are real coroutine objects."""
 
@@ -196,6 +262,18 @@ class Machine(S.Impl):
         self.writer = self.cwriter  # load() installs self.writer
         self.cur = None
         self.coros, self.status, self.task_defs = [], [], []
+        # MULTIPLICITY: the journal holds three sessions.  Key 1 was created by the connection above; key 2
+        # belongs to a second real connection (the neighbour, its own transport and tasks); key 3 is inert.
+        # start(key=…) lets the connection under test own key 1 or key 3; the other one keeps rows with the
+        # SAME numbers.  Nothing of this is visible in the model: other sessions must be untouched.
+        self.main_keys = (self.key, None)
+        self.nb = NConn(self.conn.protocol, "S2", "T2", self.journal, "h", 1, 30, logger=NLog(self))
+        self.nb_key = self.nb._session.key
+        third = self.journal.create_or_load("T3", "S3")
+        self.main_keys = (self.key, third.key)
+        self.nb_writer = NWriter(self)
+        self.nb_wire, self.nb_exc, self.nb_tasks, self.nmain = [], [], [], 0
+        self.inert_snapshot = None
         self.opened = self.closed = 0
         self.set_calls = {}
         self.trace = []  # oracle instrumentation: (kind, task, data)
@@ -203,7 +281,7 @@ class Machine(S.Impl):
         real_set = self.journal.set_seq_num
 
         def set_seq_num(session, next_num_out=None, next_num_in=None):
-            if next_num_out is not None:
+            if next_num_out is not None and session is m.conn._session:
                 k = m.set_calls.get(m.cur, 0)
                 m.set_calls[m.cur] = k + 1
                 if k % 2 == 0:
@@ -247,12 +325,16 @@ class Machine(S.Impl):
         self.trace.append(("write", self.cur, b))
 
     # ---- set-up -----------------------------------------------------------------------------
-    def start(self, a: S.AbsConn, sr: str, paused: bool, tasks):
-        """load the abstract state and create one fresh coroutine per task (nothing runs yet)"""
+    def start(self, a: S.AbsConn, sr: str, paused: bool, tasks, opts=None):
+        """load the abstract state and create one fresh coroutine per task (nothing runs yet).
+        opts: {"key": 1 | 3 (which session of the shared journal the connection owns), "nb": neighbour tasks}"""
+        opts = opts or {}
         self.finish()
         self.cwriter.paused = paused
         self.cwriter.waiters = []
+        self.select_key(opts.get("key", 1))
         self.load(a)
+        self.load_others(a)
         self.declined = None if sr == "all" else ("none" if sr == "none" else {int(x) for x in sr[1:].split(",")})
         self.opened = self.closed = 0
         self.set_calls = {}
@@ -280,6 +362,84 @@ class Machine(S.Impl):
                 raise ValueError(t)
             self.coros.append(co)
             self.status.append("new")
+        self.nmain = len(self.coros)
+        # the neighbour connection's tasks: scheduled by the same letters, invisible to the model
+        self.nb_tasks = list(opts.get("nb", []))
+        for t in self.nb_tasks:
+            if t[0] == "send":
+                mtype, tags = t[2]
+                msg = self.FIXMessage(self.FMsg(mtype) if mtype in [x.value for x in self.FMsg] else mtype)
+                for tg, v in tags:
+                    msg.set(tg, v)
+                co = self.nb.send_msg(msg)
+            elif t[0] == "recv":
+                msg, raw = self.make_msg(t[2])
+                co = self.nb._process_message(msg, raw)
+            elif t[0] == "reset":
+                co = self.nb.reset_seq_num()
+            else:
+                raise ValueError(t)
+            self.coros.append(co)
+            self.status.append("new")
+            self.task_defs.append(("nb-" + t[0], t[1]))
+
+    # ---- the other sessions of the journal ----------------------------------------------------
+    def select_key(self, key):
+        k1, k3 = self.main_keys
+        main = k3 if key == 3 else k1
+        other = k1 if key == 3 else k3
+        cur = self.journal.cursor
+        cur.execute("UPDATE session SET targetCompId=?, senderCompId=? WHERE sessionId=?", ("T3", "S3x", other))
+        cur.execute("UPDATE session SET targetCompId=?, senderCompId=? WHERE sessionId=?", ("Tm", "Sm", main))
+        cur.execute("UPDATE session SET targetCompId=?, senderCompId=? WHERE sessionId=?", ("T3", "S3", other))
+        self.journal.conn.commit()
+        self.key = main
+        self.inert_key = other
+        self.conn._session.key = main
+
+    def load_others(self, a):
+        """inert session: rows under the SAME numbers as the connection's (and one at its next numbers);
+        neighbour connection: established session with its own journal rows 3..6"""
+        cur = self.journal.cursor
+        OUT, INB = self.MD.OUTBOUND.value, self.MD.INBOUND.value
+        rows = [(seq, OUT, S.fields_to_bytes(fs)) for seq, (_, fs) in a.out_rows]
+        rows += [(seq, INB, S.fields_to_bytes(fs)) for seq, (_, fs) in a.in_rows]
+        rows += [(a.next_out, OUT, b"8=FIX.4.4\x019=5\x0135=0\x0134=%d\x0110=000\x01" % a.next_out),
+                 (a.next_in, INB, b"8=FIX.4.4\x019=5\x0135=0\x0134=%d\x0110=000\x01" % a.next_in)]
+        for seq, d, raw in rows:
+            cur.execute("INSERT OR REPLACE INTO message VALUES(?, ?, ?, ?)", (seq, self.inert_key, d, raw))
+        cur.execute("UPDATE session SET outboundSeqNo=?, inboundSeqNo=? WHERE sessionId=?",
+                    (a.next_out, a.next_in, self.inert_key))
+        nb, a2 = self.nb, NB_STATE
+        nb._connection_state = self.CS(a2.state)
+        nb._connection_role = self.CR(a2.role)
+        nb._connection_was_active = True
+        nb._session.next_num_in, nb._session.next_num_out = a2.next_in, a2.next_out
+        nb._max_seq_num_resend, nb._test_req_id, nb._message_last_time = 0, None, (T0 - 1000) / 1000
+        nb._socket_writer, nb._socket_reader, nb._msg_buffer = self.nb_writer, object(), b""
+        cur.execute("UPDATE session SET outboundSeqNo=?, inboundSeqNo=? WHERE sessionId=?",
+                    (a2.stored_out, a2.stored_in, self.nb_key))
+        for rws, d in ((a2.out_rows, OUT), (a2.in_rows, INB)):
+            for seq, (_, fs) in rws:
+                cur.execute("INSERT INTO message VALUES(?, ?, ?, ?)", (seq, self.nb_key, d, S.fields_to_bytes(fs)))
+        self.journal.conn.commit()
+        self.nb_wire, self.nb_exc = [], []
+        self.inert_snapshot = self.session_image(self.inert_key)
+        self.nb_snapshot = self.session_image(self.nb_key)
+
+    def session_image(self, key):
+        cur = self.journal.cursor
+        cur.execute("SELECT outboundSeqNo, inboundSeqNo FROM session WHERE sessionId=?", (key,))
+        cnt = tuple(next(cur))
+        cur.execute("SELECT seqNo, direction, msg FROM message WHERE session=? ORDER BY direction, seqNo", (key,))
+        return (cnt, tuple((r[0], r[1], bytes(r[2]) if not isinstance(r[2], str) else r[2].encode("latin-1")) for r in cur))
+
+    def nb_post(self) -> S.AbsConn:
+        """the neighbour's outbound side as the oracle's sentences need it"""
+        (so, si), rows = self.session_image(self.nb_key)
+        OUT = self.MD.OUTBOUND.value
+        out_rows = [(seq, (None, S.bytes_to_fields(raw))) for seq, d, raw in rows if d == OUT]
+        return S.AbsConn(next_out=self.nb._session.next_num_out, stored_out=so, stored_in=si, out_rows=out_rows)
 
     def finish(self):
         """drop coroutines that are still suspended (their `finally` blocks may await: ignore)"""
@@ -324,6 +484,7 @@ class Machine(S.Impl):
             if i < len(self.coros) and self.status[i] != "fin":
                 self.cur = i
                 self.now_ms = self.task_defs[i][1]
+                nb = self.task_defs[i][0].startswith("nb-")
                 try:
                     self.status[i] = self.coros[i].send(None)
                 except StopIteration:
@@ -334,7 +495,7 @@ class Machine(S.Impl):
                     self.eff.append(("R", ab.kind))
                     self.status[i] = "fin"
                 except Exception as e:
-                    self.eff.append(("R", S.exc_kind(e)))
+                    (self.nb_exc if nb else self.eff).append(("R", S.exc_kind(e)))
                     self.status[i] = "fin"
                 self.owner += [i] * (len(self.eff) - len(self.owner))
                 self.cur = None
@@ -351,16 +512,21 @@ class Machine(S.Impl):
         new = [f"{self.owner[k]}:{toks[k]}" for k in range(n0, len(toks))]
         w = self.cwriter
         q = ",".join(f"{i}{'+' if wk else '-'}" for i, wk in w.waiters) or "-"
-        return (";".join(new) if new else "-") + " # " + self.dump() + " # " + ",".join(self.status) + " # " + \
+        shown = [st for st, d in zip(self.status, self.task_defs) if not d[0].startswith("nb-")]
+        return (";".join(new) if new else "-") + " # " + self.dump() + " # " + ",".join(shown) + " # " + \
             f"{1 if w.paused else 0} {q} {self.opened} {self.closed}"
 
     def all_done(self):
         return all(s == "fin" for s in self.status)
 
 
+def scn_opts(scn):
+    return scn[5] if len(scn) > 5 else {}
+
+
 def task_tokens(t) -> str:
-    if t[0] == "tick":
-        return f"tick {t[1]} {S.stok(S.stamp(t[1]))}"
+    if t[0] in ("tick", "reset"):
+        return f"{t[0]} {t[1]} {S.stok(S.stamp(t[1]))}"
     return f"{t[0]} {t[1]} {S.stok(S.stamp(t[1]))} {S.msg_tok(t[2])}"
 
 
@@ -399,8 +565,8 @@ def scenarios(tier="quick"):
     not paused and initially paused."""
     out = []
 
-    def add(name, a, tasks, sr="all", toggles=1):
-        out.append((name, a, sr, tasks, toggles))
+    def add(name, a, tasks, sr="all", toggles=1, **opts):
+        out.append((name, a, sr, tasks, toggles, opts))
 
     a = active()
     # ---- two senders
@@ -465,6 +631,52 @@ def scenarios(tier="quick"):
     add("recv:resend-last(bounded)", sess, [rx(sess, "2", [(7, "3"), (16, "4")])], toggles=1)
     aws = active(state=12, max_resend=9, shape="sess")
     add("recv:resend-last(while awaiting)", aws, [rx(aws, "2", [(7, "3"), (16, "0")], seq=5)], toggles=1)
+    # ---- VALUES in sender tasks: refused sends (text outside latin-1, missing / garbled own number) of messages
+    #      that carry their OWN number, next to an ordinary send; encodable own-numbered ones (model only)
+    EUR = "\u20ac"
+    own = [("possdup-nonlatin1", ("D", [(11, "c"), (43, "Y"), (34, "3"), (58, EUR)])),
+           ("seqreset-nonlatin1", ("4", [(34, "3"), (36, "9"), (58, EUR)])),
+           ("gapfill-nonlatin1", ("4", [(123, "Y"), (34, "4"), (36, "6"), (58, "x" + EUR)])),
+           ("possdup-no34-nonlatin1", ("D", [(11, "c"), (43, "Y"), (58, EUR)])),
+           ("possdup-no34", ("D", [(11, "c"), (43, "Y")])),
+           ("seqreset-34garbled", ("4", [(34, "zz"), (36, "9")])),
+           ("possdup-own-number", ("D", [(11, "c"), (43, "Y"), (34, "3")])),
+           ("seqreset-own-number", ("4", [(34, "9"), (36, "12")]))]
+    for lab, msg in own:
+        add(f"2send:{lab}+app", a, [("send", T0, msg), ("send", T0 + 125, APP("next"))], toggles=0, one=True)
+    add("2send:nonlatin1-x2", a, [("send", T0, ("D", [(58, EUR)])), ("send", T0 + 125, ("D", [(58, "\u4e2d")]))], toggles=0)
+    add("send+recv:possdup-nonlatin1+testrequest", a, [("send", T0, own[0][1]), rx(a, "1", [(112, "T")])], toggles=0)
+    # ---- the watchdog tick in EVERY connected state with its elapsed-time preconditions satisfied
+    #      (probe due: silence > hb-1; dead: silence > 2hb; TestRequest overdue), next to a sender
+    for st in (6, 7, 10, 11, 12, 17):
+        for lab, kw in (("probe-due", dict(last_time=T0 - 30000)), ("silent", dict(last_time=T0 - 61000)),
+                        ("testreq-overdue", dict(last_time=T0 - 61000, test_req_id=T0 // 1000 - 61)),
+                        ("testreq-pending", dict(last_time=T0 - 30000, test_req_id=T0 // 1000 - 5))):
+            j = active(state=st, max_resend=9 if st == 12 else 0, **kw)
+            add(f"tick+send:state{st}:{lab}", j, [("tick", T0), ("send", T0 + 125, APP("a"))], toggles=0, one=True)
+    down = S.with_journal(S.AbsConn(state=3, role=1, was_active=True, next_in=5, next_out=7, sock=False,
+                                    last_time=T0 - 61000), "app")
+    add("tick+send:disconnected", down, [("tick", T0), ("send", T0 + 125, APP("late"))], toggles=0)
+    # the probe is due while the reader services a ResendRequest (state RESENDREQ_HANDLING / _AWAITING)
+    due = active(last_time=T0 - 30000)
+    add("recv+tick:resend-2(probe due)", due, [rx(due, "2", [(7, "5"), (16, "0")]), ("tick", T0)], toggles=1)
+    due12 = active(state=12, max_resend=9, last_time=T0 - 30000)
+    add("recv+tick:resend-2(probe due, awaiting)", due12, [rx(due12, "2", [(7, "5"), (16, "0")], seq=5), ("tick", T0)])
+    # ---- CONFIGURATION: the acceptor side
+    acc2 = active(role=2)
+    add("send+recv:resend-2(acceptor)", acc2, [("send", T0 + 125, APP("conc")), rx(acc2, "2", [(7, "5"), (16, "0")])], toggles=0)
+    add("recv:resend-last(sess, acceptor)", active(role=2, shape="sess"),
+        [rx(acc2, "2", [(7, "3"), (16, "0")])], toggles=1)
+    # ---- MULTIPLICITY: a second real connection on the SAME Journaler with tasks of its own
+    nb_rr = ("recv", T0, S.inbound(NB_STATE, "2", [(7, "5"), (16, "0")], now_ms=T0))
+    nb_send = ("send", T0 + 250, APP("nb"))
+    add("nb:2send|send", a, [("send", T0, APP("a")), ("send", T0 + 125, APP("b"))], toggles=0, nb=[nb_send], bound=4)
+    add("nb:send|resend", a, [("send", T0, APP("a"))], toggles=0, nb=[nb_rr], bound=4)
+    add("nb:resend-2|send", a, [rx(a, "2", [(7, "5"), (16, "0")])], toggles=0, nb=[nb_send], bound=4)
+    add("nb:resend-last(sess)|resend", sess, [rx(sess, "2", [(7, "3"), (16, "0")])], toggles=0, nb=[nb_rr], bound=4)
+    add("nb:send|reset_seq_num", a, [("send", T0, APP("a"))], toggles=0, nb=[("reset", T0)], bound=4)
+    add("nb:send+tick|send+send", active(last_time=T0 - 30000), [("send", T0, APP("a")), ("tick", T0)], toggles=0,
+        nb=[nb_send, ("send", T0 + 375, APP("nb2"))], bound=3)
     # ---- reader + tick (the connection is torn down under the reader)
     add("recv+tick:logon-high+testreq-timeout", S.with_journal(S.AbsConn(
         state=6, role=2, next_in=1, next_out=1, sock=True, test_req_id=T0 // 1000 - 61, last_time=0), "empty"),
@@ -510,17 +722,17 @@ def explore(m: Machine, scn, paused, bound, visited=None, max_paths=None, on_pat
     """Depth-first enumeration by re-execution.  Branches over ALL options at the first `bound` nodes that offer
     a choice, then completes with the first option.  With `visited` (a set) a node whose abstract state was seen
     before is not expanded again (state hashing).  Calls on_path(letters, records, complete)."""
-    name, a, sr, tasks, toggles = scn
+    name, a, sr, tasks, toggles = scn[:5]
     stack = [[]]
     npaths = 0
     while stack:
         forced = stack.pop()
-        m.start(a, sr, paused, tasks)
+        m.start(a, sr, paused, tasks, scn_opts(scn))
         letters, recs = [], []
         used = 0
         choices = 0
         complete = True
-        progress = [0] * len(tasks)
+        progress = [0] * len(m.coros)
         while True:
             if len(letters) < len(forced):
                 l = forced[len(letters)]
@@ -577,25 +789,28 @@ def entry_scn(e):
     """corpus / replay entry → (scenario tuple, paused, letters)"""
     a = S.parse_conn_tokens(e["conn"])
     tasks = [parse_task(t) for t in e["tasks"]]
-    return (e.get("label", "corpus"), a, e["sr"], tasks, 99), bool(e["paused"]), list(e["letters"])
+    opts = {"key": e.get("key", 1), "nb": [parse_task(t) for t in e.get("nb", [])]}
+    return (e.get("label", "corpus"), a, e["sr"], tasks, 99, opts), bool(e["paused"]), list(e["letters"])
 
 
 def parse_task(text):
     t = text.split(" ")
-    if t[0] == "tick":
-        return ("tick", int(t[1]))
+    if t[0] in ("tick", "reset"):
+        return (t[0], int(t[1]))
     return (t[0], int(t[1]), S.parse_msg_tok(t[3]))
 
 
 def make_entry(scn, paused, letters, label=None):
-    name, a, sr, tasks, _ = scn
+    name, a, sr, tasks, _ = scn[:5]
+    o = scn_opts(scn)
     return {"label": label or name, "conn": a.tokens(), "sr": sr, "paused": 1 if paused else 0,
-            "tasks": [task_tokens(t) for t in tasks], "letters": list(letters)}
+            "tasks": [task_tokens(t) for t in tasks], "letters": list(letters),
+            "key": o.get("key", 1), "nb": [task_tokens(t) for t in o.get("nb", [])]}
 
 
 def run_letters(m: Machine, scn, paused, letters):
-    name, a, sr, tasks, _ = scn
-    m.start(a, sr, paused, tasks)
+    name, a, sr, tasks, _ = scn[:5]
+    m.start(a, sr, paused, tasks, scn_opts(scn))
     return [m.step(l) for l in letters]
 
 
@@ -674,8 +889,8 @@ class Comparer:
 
 def random_schedule(m: Machine, rng, scn, paused):
     """one random maximal schedule (uniform choice among the options at every node)"""
-    name, a, sr, tasks, toggles = scn
-    m.start(a, sr, paused, tasks)
+    name, a, sr, tasks, toggles = scn[:5]
+    m.start(a, sr, paused, tasks, scn_opts(scn))
     letters, recs, used = [], [], 0
     while True:
         opts = options(m, toggles - used)
@@ -702,9 +917,35 @@ def complete(m: Machine, letters, toggles=2):
     return extra
 
 
+def own_numbered(msg) -> bool:
+    mtype, tags = msg
+    return mtype == "4" or dict(tags).get(43) == "Y"
+
+
+def judgeable(scn) -> bool:
+    """the oracle's sentences apply: consistent store at the start, and no application task re-sends under a number
+    of its own choice (an ENCODABLE PossDupFlag=Y / SequenceReset from the application reuses a number on purpose:
+    compared with the model only).  A refused one (text outside latin-1) must change nothing and is judged."""
+    if not consistent(scn[1]):
+        return False
+    for t in list(scn[3]) + list(scn_opts(scn).get("nb", [])):
+        if t[0] == "send" and own_numbered(t[2]) and all(ord(ch) < 256 for _, v in t[2][1] for ch in v):
+            return False
+    return True
+
+
+def with_key(scn, paused):
+    """MULTIPLICITY: unless the scenario says otherwise the connection owns the first session of the shared
+    journal when the transport starts free and the third one when it starts paused"""
+    o = dict(scn_opts(scn))
+    o.setdefault("key", 3 if paused else 1)
+    return tuple(scn[:5]) + (o,)
+
+
 def explore_scenario(m, scn, paused, bound, cmp_, fails, visited=None, max_paths=None, nstat=None):
     """exploration + comparison + (on the same executions) the oracle's sentences"""
-    judge_it = consistent(scn[1])
+    scn = with_key(scn, paused)
+    judge_it = judgeable(scn)
 
     def on_path(letters, recs, complete_):
         cmp_.add(scn, paused, letters, recs)
@@ -764,18 +1005,19 @@ def correspondence(ctx):
             scn, paused, letters = entry_scn(e)
             cmp_.add(scn, paused, letters, run_letters(m, scn, paused, letters))
         quick = scenarios("quick")
-        for scn in quick:
-            for paused in (False, True):
-                explore_scenario(m, scn, paused, 6, cmp_, fails, nstat=nstat)
+        for idx, scn in enumerate(quick):
+            # `one`: small families run with ONE initial back-pressure (alternating), the others with both
+            for paused in ((idx % 2 == 1,) if scn_opts(scn).get("one") else (False, True)):
+                explore_scenario(m, scn, paused, scn_opts(scn).get("bound", 6), cmp_, fails, nstat=nstat)
         # uniformly random maximal schedules of the long scenarios (beyond the branching bound)
         long_ = [s for s in quick if "resend" in s[0] or "logout" in s[0] or "logon" in s[0]]
-        for _ in range(ctx.n(600, 3000)):
+        for _ in range(ctx.n(400, 3000)):
             scn = ctx.rng.choice(long_)
             paused = ctx.rng.random() < 0.5
-            scn2 = (scn[0], scn[1], scn[2], scn[3], 2)
+            scn2 = with_key((scn[0], scn[1], scn[2], scn[3], 2) + tuple(scn[5:]), paused)
             l, r = random_schedule(m, ctx.rng, scn2, paused)
             cmp_.add(scn2, paused, l, r)
-            if consistent(scn2[1]) and m.all_done():
+            if judgeable(scn2) and m.all_done():
                 sent = judge(m, scn2[1])
                 nstat["judged"] = nstat.get("judged", 0) + 1
                 if sent:
@@ -811,7 +1053,11 @@ def correspondence(ctx):
                     "quick: all schedules of {2 senders} x9, {sender + tick} x4, {sender + reader with one inbound frame: "
                     "Logon x3, TestRequest, ResendRequest x10 (1-3 journaled messages, declined, session rows, holes, bounded EndSeqNo, "
                     "EndSeqNo < BeginSeqNo, beyond, while awaiting), high seqnum, app, Heartbeat x2, Logout, GapFill, SequenceReset, CompID mismatch} and "
-                    "{reader + tick}, {reader alone / + idle tick / + refused sender whose ResendRequest reply is the last outbound "
+                    "{reader + tick}, {2 senders with own-numbered / unencodable messages} x10, {tick + sender in each connected state "
+                    "6,7,10,11,12,17 and disconnected x probe due / silent / TestRequest overdue / pending} x25, {reader servicing "
+                    "a ResendRequest + tick with the probe due}, acceptor role x2, {second connection on the same Journaler with "
+                    "its own send / ResendRequest / reset_seq_num tasks} x6 (connection = first session when the transport "
+                    "starts free, third session when it starts paused), {reader alone / + idle tick / + refused sender whose ResendRequest reply is the last outbound "
                     "activity: journals with session-level rows, holes, PossDup copies, declined rows} x19, each with the transport initially free / paused, branching over every enabled letter "
                     "at the first 6 nodes that offer a choice and completed first-enabled afterwards, plus uniformly random "
                     "maximal schedules of the long scenarios; thorough: the same scenario list extended by eleven 3-task "
@@ -846,13 +1092,10 @@ def body_of(fields):
     return [(t, v) for t, v in fields if t not in BODY_SKIP]
 
 
-def judge(m: Machine, a: S.AbsConn):
-    """sentences of C14 on what the finished tasks did.  Returns [(sentence, detail)]."""
+def judge_data(a: S.AbsConn, wire, excs, post: S.AbsConn, done: bool):
+    """sentences of C14 for ONE connection: wire = [(task, fields)] in wire order, excs = [(task, kind, exc)],
+    post = its counters / stored counter / outbound rows afterwards.  Returns [(sentence, detail)]."""
     out = []
-    wire = []  # (task, fields) in wire order
-    for k, e in enumerate(m.eff):
-        if e[0] == "W":
-            wire.append((m.owner[k], S.bytes_to_fields(e[1])))
     known = {seq: fs for seq, (_, fs) in a.out_rows}  # number -> frame that owns it
     used = set(known)                                  # (every number below the initial counter is spent too)
     last_new = a.next_out - 1
@@ -880,10 +1123,9 @@ def judge(m: Machine, a: S.AbsConn):
         highest = max(highest, n)
         used.add(n)
         known[n] = fs
-    for k, e in enumerate(m.eff):
-        if e[0] in ("C", "R") and e[1] == "DuplicateSeqNo":
-            out.append(("duplicate-error", f"task {m.owner[k]} {e[0]}"))
-    post = S.parse_conn_tokens(m.dump())
+    for task, kind, exc in excs:
+        if exc == "DuplicateSeqNo":
+            out.append(("duplicate-error", f"task {task} {kind}"))
     rows = dict(post.out_rows)
     for task, fs in wire:
         d = dict(fs)
@@ -895,7 +1137,7 @@ def judge(m: Machine, a: S.AbsConn):
             out.append(("not-journaled", f"34={n} task {task}"))
         elif r[1] != fs and not (dict(r[1]).get(43) == "Y" and body_of(r[1]) == body_of(fs)) and dict(r[1]).get(35) != "4":
             out.append(("journaled-differently", f"34={n} task {task}"))
-    if m.all_done():
+    if done:
         if post.stored_out + 1 != post.next_out:
             out.append(("stored-counter", f"stored {post.stored_out} + 1 != next_num_out {post.next_out}"))
         if post.next_out != highest + 1:
@@ -903,12 +1145,52 @@ def judge(m: Machine, a: S.AbsConn):
     return out
 
 
+def judge(m: Machine, a: S.AbsConn):
+    """the sentences on the connection under test, on the neighbour connection that shares its Journaler (when
+    it has tasks), and: the other sessions of the journal are untouched"""
+    wire = [(m.owner[k], S.bytes_to_fields(e[1])) for k, e in enumerate(m.eff) if e[0] == "W"]
+    excs = [(m.owner[k], e[0], e[1]) for k, e in enumerate(m.eff) if e[0] in ("C", "R")]
+    out = judge_data(a, wire, excs, S.parse_conn_tokens(m.dump()), m.all_done())
+    if m.session_image(m.inert_key) != m.inert_snapshot:
+        out.append(("other-session-touched", f"inert session {m.inert_key} of the shared journal changed"))
+    if m.nb_tasks:
+        nbw = [("nb", S.bytes_to_fields(b)) for b in m.nb_wire]
+        nbe = [("nb", k, x) for k, x in m.nb_exc]
+        post = m.nb_post()
+        if any(t[0] == "reset" for t in m.nb_tasks):
+            # reset_seq_num() is the application's deliberate restart at 1: afterwards the store must agree with
+            # the counter and hold no outbound row at or above it
+            if m.all_done() and post.stored_out + 1 != post.next_out:
+                out.append(("neighbour-stored-counter", f"stored {post.stored_out} + 1 != next_num_out {post.next_out}"))
+            if m.all_done() and any(seq >= post.next_out for seq, _ in post.out_rows):
+                out.append(("neighbour-rows-above-counter", f"rows {[q for q, _ in post.out_rows]} next_num_out {post.next_out}"))
+        else:
+            out += [("neighbour-" + s_, d) for s_, d in judge_data(NB_STATE, nbw, nbe, post, m.all_done())]
+        for k, x in m.nb_exc:
+            if x not in ("DuplicateSeqNo",):
+                out.append(("neighbour-exception", f"{k}={x}"))
+    elif m.session_image(m.nb_key) != m.nb_snapshot:
+        out.append(("other-session-touched", f"idle neighbour session {m.nb_key} of the shared journal changed"))
+    return out
+
+
+TASK_KIND = {"send": "application", "tick": "watchdog", "recv": "reader", "spawned": "spawned"}
+
+
 def classify(m: Machine, sentences):
-    """signature of a failing schedule.  D21 class: a NEW message took its number while a _process_resend was
-    between its two set_seq_num calls (or had died there).  Revived class: `_state_set` put the connection into
-    a connected state while there was no transport, and a later send died in `None.write`."""
-    if any(t[0] == "alloc" and t[3] for t in m.trace):
-        return SIG_D21
+    """signature of a failing schedule.
+    D21 class: the FIRST new message that took its number while a _process_resend was between its two
+    set_seq_num calls (or had died there) came from an APPLICATION sender task.  (On the unchanged tree the
+    watchdog does not probe in RESENDREQ_HANDLING / RESENDREQ_AWAITING and the reader sends nothing new inside
+    its window: an allocation by one of THEM inside the window is a different failure.)
+    Revived class: `_state_set` put the connection into a connected state while there was no transport, and a
+    later send died in `None.write`."""
+    inside = [t for t in m.trace if t[0] == "alloc" and t[3]]
+    if inside:
+        who = TASK_KIND.get(m.task_defs[inside[0][1]][0], "other") if inside[0][1] is not None else "other"
+        if who == "application":
+            return SIG_D21
+        return f"C14-{who}-send-inside-resend-rewind-window"
     kinds = sorted({s for s, _ in sentences})
     if any(t[0] == "revived" for t in m.trace) and any(e[0] in ("C", "R") and e[1] == "Attribute" for e in m.eff):
         return SIG_NOTRANSPORT
@@ -928,8 +1210,8 @@ def failure(m: Machine, scn, paused, letters, sent):
 def oracle_run(m: Machine, scn, paused, letters):
     """run the schedule on the real coroutines (remaining tasks are run to their end) and judge it;
     returns a failure dict or None"""
-    name, a, sr, tasks, _ = scn
-    m.start(a, sr, paused, tasks)
+    name, a, sr, tasks, _ = scn[:5]
+    m.start(a, sr, paused, tasks, scn_opts(scn))
     for l in letters:
         m.step(l)
     letters = list(letters) + complete(m, letters)
@@ -946,7 +1228,7 @@ def oracle(ctx, disagreements, broken):
         # the witnesses of the open findings and the rest of the corpus
         for e in corpus_entries():
             scn, paused, letters = entry_scn(e)
-            if not consistent(scn[1]):
+            if not judgeable(scn):
                 continue
             stats["replayed_corpus"] += 1
             f = oracle_run(m, scn, paused, letters)
@@ -955,7 +1237,7 @@ def oracle(ctx, disagreements, broken):
         # the disagreeing schedules first
         for d in disagreements[:300]:
             scn, paused, letters = entry_scn(d["input"])
-            if not consistent(scn[1]):
+            if not judgeable(scn):
                 continue
             stats["replayed_disagreements"] += 1
             f = oracle_run(m, scn, paused, letters)
@@ -972,9 +1254,10 @@ def oracle(ctx, disagreements, broken):
             stats["explored"] = getattr(ctx, "c14_nstat", {}).get("judged", 0)
         else:
             # search harder: deeper branching on every scenario, then random schedules of all scenarios
-            scns = [s_ for s_ in scenarios("thorough") if consistent(s_[1])]
-            for scn in scns:
+            scns = [s_ for s_ in scenarios("thorough") if judgeable(s_)]
+            for scn0 in scns:
                 for paused in (False, True):
+                    scn = with_key(scn0, paused)
                     paths = []
                     explore(m, scn, paused, 8 if len(scn[3]) == 2 else 6, on_path=lambda l, r, c: paths.append(l),
                             max_paths=ctx.n(1500, 6000))
@@ -986,7 +1269,7 @@ def oracle(ctx, disagreements, broken):
             for _ in range(ctx.n(3000, 20000)):
                 scn = ctx.rng.choice(scns)
                 paused = ctx.rng.random() < 0.5
-                scn2 = (scn[0], scn[1], scn[2], scn[3], 3)
+                scn2 = with_key((scn[0], scn[1], scn[2], scn[3], 3) + tuple(scn[5:]), paused)
                 l, _r = random_schedule(m, ctx.rng, scn2, paused)
                 stats["random"] += 1
                 if m.all_done():
